@@ -1,10 +1,11 @@
 import MoneroModel.Model.VarInt
 import MoneroModel.Gen.Consts
+import MoneroModel.Gen.Sizes
 /-! Model of the transaction codec (encode.rs, transaction.rs, ringct.rs). -/
 namespace Monero
 def CAP : Nat := Gen.CAP
-structure Sizes where (txin txout varint key bp bpp u8 : Nat)
-def sizes : Sizes := ⟨64, 48, 8, 32, 336, 240, 1⟩
+/-- size_of table of the current build (generated) -/
+def sizes : Sizes := Gen.sizes
 
 def rep {α} (d : Dec α) : Nat → Dec (List α)
   | 0 => pure' []
@@ -64,7 +65,7 @@ def proofsDec (ty outputs : Nat) : Dec (List Bytes × List BP × List BPP) :=
   if ty = 4 ∨ ty = 5 then bind (vec sizes.bp bp) fun x => pure' ([], x, [])
   else if ty = 3 then bind u32le fun n => bind (sizedVec sizes.bp bp n) fun x => pure' ([], x, [])
   else if ty = 6 then bind u8 fun n => bind (sizedVec sizes.bpp bpp n.toNat) fun x => pure' ([], [], x)
-  else bind (sizedVec 6176 (takeN 6176) outputs) fun x => pure' (x, [], [])
+  else bind (sizedVec sizes.rangesig (takeN 6176) outputs) fun x => pure' (x, [], [])
 
 def clsagDec (mixin : Nat) : Dec Clsag :=
   bind (rep key (mixin+1)) fun s => bind key fun c1 => bind key fun d => pure' ⟨s, c1, d⟩
